@@ -52,7 +52,7 @@ func (e *Exec) verifyFunction(fn *ssa.Function, sp *FuncSpec) {
 	cov.Cover = true
 	e.entry = st.clone()
 	nret := 0
-	e.runFunc(fn, sp, args, binds, st, false, func(st2 *State, results []SV) {
+	atReturn := func(st2 *State, results []SV) {
 		nret++
 		e.curPath = strings.Join(st2.trace, ",")
 		rv := map[string]SV{}
@@ -69,7 +69,7 @@ func (e *Exec) verifyFunction(fn *ssa.Function, sp *FuncSpec) {
 				rv[fv.Name()] = e.load(st2, a)
 			}
 		}
-		env := &specEnv{into: st2, st: st2, old: e.entry, vars: rv, oldVars: vars, pkg: pkgOf(fn), fr: nil}
+		env := &specEnv{goal: true, into: st2, st: st2, old: e.entry, vars: rv, oldVars: vars, pkg: pkgOf(fn), fr: nil}
 		for _, en := range sp.Ensures {
 			g, err := e.evalSpecBool(en.Expr, env)
 			if err != nil {
@@ -97,7 +97,9 @@ func (e *Exec) verifyFunction(fn *ssa.Function, sp *FuncSpec) {
 		e.frameCheck(st2, name, sp)
 		e.effectsDeclared(st2, name, sp)
 		e.exitHook(st2, name, sp, false)
-	}, func(st2 *State, v SV) {
+	}
+	e.onExit = func(st2 *State) { atReturn(st2, nil) }
+	e.runFunc(fn, sp, args, binds, st, false, atReturn, func(st2 *State, v SV) {
 		e.curPath = strings.Join(st2.trace, ",")
 		if !sp.AllowPanic {
 			e.oblige(st2, name+"/safe:explicit-panic", sp.SafetyProps, BoolLit(false), "explicit panic reachable")
